@@ -78,10 +78,60 @@ func c18Run(c *runCtx, r *rng, ci, workers, procs, cacheSize, steps int) {
 	if cacheSize > 0 {
 		rc.Bugs().SetCacheSize(cacheSize)
 	}
+	// ---- bursts: all workers edit the same bug at the same moment without committing; after
+	// each burst (everybody returned) the listing must say what the bug says. Overlapping
+	// notifications that store an older excerpt last show here.
+	var burstOps []entity.Id
+	var burstMu sync.Mutex
+	if cacheSize == 0 {
+		bursts := c.pick(40, 200)
+		target := shared[0]
+		for round := 0; round < bursts; round++ {
+			var bw sync.WaitGroup
+			gate := make(chan struct{})
+			for w := 0; w < workers; w++ {
+				bw.Add(1)
+				go func(w int) {
+					defer bw.Done()
+					defer func() { recover() }()
+					<-gate
+					if b, err := rc.Bugs().Resolve(target); err == nil {
+						if _, op, _ := b.AddComment(fmt.Sprintf("burst %d by %d", round, w)); op != nil {
+							burstMu.Lock()
+							burstOps = append(burstOps, op.Id())
+							burstMu.Unlock()
+						}
+					}
+				}(w)
+			}
+			close(gate)
+			bdone := make(chan struct{})
+			go func() { bw.Wait(); close(bdone) }()
+			select {
+			case <-bdone:
+			case <-time.After(25 * time.Second):
+				c.violation(-1, "C18/deadlock", "a burst of AddComment calls did not return ("+tag+")", map[string]any{"conf": tag})
+				return
+			}
+			ex, err1 := rc.Bugs().ResolveExcerpt(target)
+			bc, err2 := rc.Bugs().Resolve(target)
+			if err1 == nil && err2 == nil && ex.LenComments != len(bc.Snapshot().Comments) {
+				c.violation(-1, "C18/excerpt-stale-at-quiescence", fmt.Sprintf("after burst %d of %d simultaneous AddComment calls the cache lists %d comments, the bug has %d (%s)", round, workers, ex.LenComments, len(bc.Snapshot().Comments), tag), map[string]any{"conf": tag})
+				break
+			}
+		}
+		c.countN("bursts", bursts)
+		if bc, err := rc.Bugs().Resolve(target); err == nil {
+			bc.CommitAsNeeded()
+		}
+	}
 	var mu sync.Mutex
 	var acks []c18Ack
 	var problems []string
 	attempted := map[entity.Id]bool{}
+	for _, id := range burstOps {
+		attempted[id] = true
+	}
 	stuck := make([]string, workers) // what each worker is doing right now
 	var wg sync.WaitGroup
 	seeds := make([]*rng, workers)
